@@ -358,7 +358,10 @@ class FuncGen:
         if c == 1:
             return '(%s, %s)' % (self.expr('int', d), self.expr(r.choice(['int', 'str', 'float']), d))
         if c == 2:
-            return 'divmod(%s, %s)' % (self.expr('int', d), self.expr('int', d))
+            # never two constants: '*divmod(7, 2)' inside a display is compiled into garbage or rejected (C43/C36 finding
+            # 'starred constant divmod'); keep one operand a variable/parameter when there is one
+            v = self.pick_var('int') or 'len(GL)'
+            return 'divmod(%s, %s)' % (v, self.expr('int', d))
         if c == 3 and not self.no_star:
             self.f('starred')
             return '(*%s, %s)' % (self.expr('list', d), self.expr('int', d))
